@@ -137,3 +137,51 @@ def extract_cfg(g):
     start = g.start_symbol
     return Gram(None if start is None else ("V", start.value), prods,
                 [("V", x.value) for x in g.variables], [("T", x.value) for x in g.terminals])
+
+
+# --------------------------------------------------------------- pushdown automata
+
+def pdamod():
+    import pyformlang.pda as m
+    return m
+
+
+def ref_pda_from_case(case, scheme="plain"):
+    from .refs.pda import PDA
+    from .gen import pda as GP
+    q, g, trans, fi = case
+    sn, kn = GP.names(scheme, q, g)
+    return PDA(sn, sn[0], kn[0], [sn[i] for i in range(q) if fi >> i & 1],
+               [(sn[p], GP.IN[a], kn[X], sn[r], tuple(kn[y] for y in gamma)) for p, a, X, r, gamma in trans])
+
+
+def build_pda(case, scheme="plain"):
+    from .gen import pda as GP
+    m = pdamod()
+    q, g, trans, fi = case
+    sn, kn = GP.names(scheme, q, g)
+    p = m.PDA(states=set(sn), input_symbols={"a", "b"}, stack_alphabet=set(kn), start_state=sn[0],
+              start_stack_symbol=kn[0], final_states={sn[i] for i in range(q) if fi >> i & 1})
+    for s, a, X, r, gamma in trans:
+        p.add_transition(sn[s], "epsilon" if a == 0 else GP.IN[a], kn[X], sn[r], [kn[y] for y in gamma])
+    return p
+
+
+def extract_pda(p):
+    """Library PDA -> reference PDA through states / start_state / final_states / to_dict() and the start stack
+    symbol through to_networkx(), as the property prescribes."""
+    import json
+    from .refs.pda import PDA
+    m = pdamod()
+    trans = []
+    for (s_from, a, X), outs in p.to_dict().items():
+        for (s_to, gamma) in outs:
+            trans.append((s_from.value, None if isinstance(a, m.Epsilon) else a.value, X.value, s_to.value,
+                          tuple(y.value for y in gamma if not isinstance(y, m.Epsilon))))
+    start = p.start_state
+    g = p.to_networkx()
+    ss = None
+    if "INITIAL_STACK_HIDDEN" in g.nodes:
+        ss = json.loads(g.nodes["INITIAL_STACK_HIDDEN"]["label"])
+    return PDA([s.value for s in p.states], None if start is None else start.value, ss,
+               [s.value for s in p.final_states], trans)
